@@ -579,6 +579,12 @@ def _play(draw, invalid_requests=False, signed=False):
     items.append([S("tasks", "p"), {"l": tasks}])
     for _ in range(draw(st.integers(0, 2))):
         items.append([draw(_key), draw(_value)])
+    if invalid_requests and draw(st.booleans()):
+        # another top-level mapping with addressable children (environment, module_defaults, ...): a
+        # two-segment request naming one of its existing children must be refused like any other label
+        items.append([S(draw(st.sampled_from(["environment", "module_defaults", "env"])), "p"),
+                      {"m": [[S(k, "p"), draw(_value)] for k in draw(st.lists(st.sampled_from(
+                          ["LD_PRELOAD", "PATH", "a", "uri"]), min_size=1, max_size=2, unique=True))]}])
     # exclusion list
     children.append([S(EXCL, "p"), S("")])
     children = norm({"m": children})["m"]
@@ -622,9 +628,15 @@ def _play(draw, invalid_requests=False, signed=False):
         child_keys = [k["s"] for k, v in vch if "s" in k and _ADDRESSABLE.match(k["s"])]
         other_top = [k["s"] for k, v in items if "s" in k and k["s"] not in LABELS and _ADDRESSABLE.match(k["s"])]
         bad = draw(st.sampled_from(["missing-child", "child-of-scalar", "deeper", "other-label", "none", "missing-top",
-                                    "near-label", "int-child", "missing-child", "deeper", "other-label"]))
+                                    "near-label", "int-child", "missing-child", "deeper", "other-label",
+                                    "other-label-child", "other-label-child"]))
         r = None
-        if bad == "other-label" and other_top:
+        other_children = [(k["s"], ck["s"]) for k, v in items if "s" in k and k["s"] not in LABELS
+                          and _ADDRESSABLE.match(k["s"]) and "m" in v
+                          for ck, cv in v["m"] if "s" in ck and _ADDRESSABLE.match(ck["s"])]
+        if bad == "other-label-child" and other_children:
+            r = "/%s/%s" % draw(st.sampled_from(other_children))
+        elif bad == "other-label" and other_top:
             r = "/" + draw(st.sampled_from(other_top)) + draw(st.sampled_from(["", "", "/x"]))
         elif bad == "deeper" and child_keys:
             r = "/vars/" + draw(st.sampled_from(child_keys)) + "/" + draw(st.sampled_from(["x", "0", EXCL]))
